@@ -86,8 +86,8 @@ M = {
  "C03-F": ("pass 2 memoises the encoded bytes per source line (line number, item number)", "a macro body holding a branch to a label outside the macro, expanded at two or more addresses"),
  "C04-E": ("operand errors are collected per segment; the 'failed' flag is overwritten by each later segment", "an instruction the ISA cannot encode, followed by another non-empty, error-free segment"),
  "C04-F": ("rjmp/rcall targets reduced modulo 4096 on devices with 4096 words before the range check", "such a device and a target more than 2 K words away or outside the device"),
- "C05-E": ("(delivered late, see eval.json)", "(see README.md)"),
- "C05-F": ("(delivered late, see eval.json)", "(see README.md)"),
+ "C05-E": ("`&&` / `||` stop at the left operand when it decides", "a division by zero, an overflow or an out-of-range shift in the right operand of `&&`/`||` whose left operand decides"),
+ "C05-F": ("cycle detection keeps a set of symbols being resolved: inserted lower-cased, removed as written", "an expression-defined `.equ` written with a capital letter, used twice within one evaluation"),
  "C06-E": ("`.dw <bare label>` is written straight from the label table as u16, skipping the range check", "a label above 0xFFFF (behind `.org 0x10000`) as a bare `.dw` operand"),
  "C06-F": ("the nesting guard counts `-`, `!`, `~` inside strings", "a string operand with a run of more than 200 such characters"),
  "C07-E": ("one record builder reused for the code and the EEPROM text; its block counter is not reset", "one build result with a code image of 64 KiB or more and a non-empty EEPROM image"),
